@@ -464,6 +464,27 @@ def shared_cache_twins(run: lib.Run) -> None:
                             return
 
 
+def changing_verdicts(run: lib.Run) -> None:
+    """a custom checker (derived from the built-in one) whose own verdict changes from one evaluation of the SAME request to the next
+    — a revocation list, a rate limit: every pattern of 4 verdicts on a cached engine next to an uncached engine with the same checker.
+    What the engine writes on a decision it revokes must not travel back into the cache."""
+    import fixedwit
+    pol = {"algorithm": "permit-overrides", "rules": [{"id": "r", "effect": "permit", "actions": ["read"], "resource": {"type": "doc"},
+                                                        "obligations": [{"type": "require_mfa"}]}]}
+    rq = req(ctx={"mfa": True})
+    for pattern in itertools.product([True, False], repeat=4):
+        w = {"policy": pol, "request": rq, "verdicts": list(pattern)}
+        got = fixedwit.cached_checker_sequence(w)
+        want = [[True, "permit", "matched", None] if v else [False, "deny", "obligation_failed", "reauth"] for v in pattern]
+        run.case(["changing-verdicts", pattern], True)
+        run.count("changing-verdicts")
+        if got != want:
+            run.spec_failures.append({"part": "changing-verdicts", "policy": pol, "request": rq, "checker_verdicts_in_order": list(pattern),
+                                      "cached": got, "uncached": want,
+                                      "spec": "a cached engine returned a decision different from the uncached engine holding the same policy"})
+            return
+
+
 def gather_cases(run: lib.Run) -> None:
     """the whole pool in flight at once on ONE cached engine (a role resolver that yields to the loop makes the evaluations interleave),
     twice; every answer next to the uncached engine's"""
@@ -681,6 +702,7 @@ def check(run: lib.Run, audit: dict) -> int:
     run_cases(run)
     twin_cases(run)
     shared_cache_twins(run)
+    changing_verdicts(run)
     gather_cases(run)
     overlap_cases(run)
     violations = []
@@ -707,9 +729,9 @@ def replay(run: lib.Run, audit: dict, path: str) -> int:
     if c.get("part") == "history":
         hist = [tuple(o) for o in c["history"]]
         print("now:", run_history(hist, c["maxsize"], c["ttl"], c["cache"], False), run_history(hist, c["maxsize"], c["ttl"], c["cache"], True))
-    if c.get("part") in ("overlapping evaluations", "twin-policies", "concurrent-evaluations"):
+    if c.get("part") in ("overlapping evaluations", "twin-policies", "concurrent-evaluations", "changing-verdicts"):
         before = len(run.spec_failures)
-        for fn in {"overlapping evaluations": (overlap_cases,), "twin-policies": (twin_cases, shared_cache_twins), "concurrent-evaluations": (gather_cases,)}[c["part"]]:
+        for fn in {"changing-verdicts": (changing_verdicts,), "overlapping evaluations": (overlap_cases,), "twin-policies": (twin_cases, shared_cache_twins), "concurrent-evaluations": (gather_cases,)}[c["part"]]:
             fn(run)
         now = run.spec_failures[before:]
         print("now:", json.dumps(now[:1], default=str)[:1500] if now else "no difference between the cached and the uncached engine")
